@@ -5,6 +5,7 @@ Model: Gms/Model/Fulltext.lean. Helper lemmas first (namespace Gms.Fulltext), pr
 at the end (namespace Gms.C51).
 -/
 import Gms.Model.Fulltext
+import Gms.Lemmas.FulltextEditor
 import Gms.Generated.C51
 
 namespace Gms.Fulltext
@@ -443,5 +444,64 @@ example : rStuck 3 84 true [] [.ins { id := 1, cols := [some (ascii [115, 117, 1
     ∧ ([Op.ins { id := 1, cols := [some (ascii [115, 117, 110])] }, .upd 1 [some (ascii [112, 105, 101])],
       .rekey 1 2, .ins { id := 1, cols := [none] }, .del 1].foldl (applyOp true) []).map (·.id) = [2] := by
   decide
+
+/-! ### The editor keeps the pseudo-index tables in sync (Impl model Gms/Model/FulltextEditor.lean) -/
+
+/-- `TableEditor.Insert` preserves "index tables = F(rows)" — for every table state, row, collation
+hash and row-key function (primary key or row hash), duplicates included. -/
+theorem editor_insert_sync {κ ρ : Type} [DecidableEq κ] [DecidableEq ρ] (key : Word → κ) (rk : Row → ρ)
+    (rows : List Row) (ix : Idx κ ρ) (r : Row) (hs : Sync key rk 3 84 rows ix) (hk : KeysOK rk (r :: rows)) :
+    Sync key rk 3 84 (r :: rows) (edInsert key rk 3 84 ix r) :=
+  sync_insert key rk 3 84 rows ix r hs hk
+
+/-
+Full statement for Delete — FALSE for the code as it is (`finding_editor_delete_fails`):
+  ∀ rows ix r, Sync rows ix → r ∈ rows → ∃ ix', edDelete ix r = some ix' ∧ Sync (rows.erase r) ix'
+-/
+
+/-- `TableEditor.Delete` succeeds and preserves "index tables = F(rows)" — guarded: the row's
+document has no word longer than `maxWordLength`. -/
+theorem editor_delete_sync_partial {κ ρ : Type} [DecidableEq κ] [DecidableEq ρ] (key : Word → κ) (rk : Row → ρ)
+    (rows : List Row) (ix : Idx κ ρ) (r : Row) (hs : Sync key rk 3 84 rows ix) (hk : KeysOK rk rows) (hr : r ∈ rows)
+    (hl : noLong 3 84 r) :
+    ∃ ix', edDelete key rk 3 84 ix r = some ix' ∧ Sync key rk 3 84 (rows.erase r) ix' :=
+  sync_delete key rk 3 84 rows ix r hs hk hr hl
+
+/-- `Delete` (hence `Update`) fails exactly when it reaches the last copy of a row whose document
+contains a unique word of more than 84 bytes — the region `dml_rejected_for_row_with_overlong_word`
+derived from the editor model instead of postulated. -/
+theorem editor_delete_fails_iff {κ ρ : Type} [DecidableEq κ] [DecidableEq ρ] (key : Word → κ) (rk : Row → ρ)
+    (rows : List Row) (ix : Idx κ ρ) (r : Row) (hs : Sync key rk 3 84 rows ix) :
+    edDelete key rk 3 84 ix r = none ↔ rows.count r = 1 ∧ (uniq key 3 r).any (fun e => bytes e.1 > 84) = true :=
+  delete_fails_iff key rk 3 84 rows ix r hs
+
+/-- **The index stays in sync across any DML history** (`ft_index_inv`): starting from the empty
+table, after any sequence of row-level `Insert` / `Delete` / `Update` calls that are admissible on
+the table they meet (deleted rows exist, keys stay unique) and delete no row with an over-long word,
+no call fails and ROW_COUNT, DOC_COUNT, GLOBAL_COUNT and POSITION are exactly the Spec functions of
+the resulting table. -/
+theorem ft_index_inv {κ ρ : Type} [DecidableEq κ] [DecidableEq ρ] (key : Word → κ) (rk : Row → ρ)
+    (ops : List EdOp) (h : histOK rk 3 84 [] ops) :
+    ∃ ix, runEd key rk 3 84 (Idx.empty : Idx κ ρ) ops = some ix ∧ Sync key rk 3 84 (ops.foldl tblStep []) ix :=
+  sync_hist key rk 3 84 ops [] Idx.empty (sync_empty key rk 3 84) (fun _ ha => by simp at ha) h
+
+def row1 : Row := { id := 1, cols := [some (ascii [115, 117, 110, 32, 112, 105, 101])] }   -- 'sun pie'
+def row2 : Row := { id := 2, cols := [some (ascii [115, 117, 110])] }                       -- 'sun'
+def rowLong : Row := { id := 3, cols := [some (ascii (List.replicate 85 119))] }            -- 85 × 'w'
+
+/-- Non-vacuity of `ft_index_inv`: insert, insert, update, delete on a keyed table. -/
+example : histOK (fun r => r.id) 3 84 [] [.ins row1, .ins row2, .upd row1 { row1 with cols := [none] }, .del row2] := by
+  simp only [histOK, opOK, opNoLong, tblStep, KeysOK, noLong]
+  decide
+
+set_option maxRecDepth 100000 in
+/-- Finding (same region as `finding_dml_rejected_for_row_with_overlong_word`, on the editor model):
+after inserting a row with an 85-byte word, `Delete` of that row fails. -/
+theorem finding_editor_delete_fails :
+    ∃ ops r, (runEd (fun w => w) (fun r => r.id) 3 84 (Idx.empty : Idx Word Nat) ops).isSome = true ∧
+      r ∈ ops.foldl tblStep [] ∧
+      (runEd (fun w => w) (fun r => r.id) 3 84 (Idx.empty : Idx Word Nat) (ops ++ [.del r])).isSome = false :=
+  ⟨[.ins rowLong], rowLong, by decide⟩
+
 
 end Gms.C51
